@@ -1,0 +1,36 @@
+use naijascript::diagnostics::AsStr;
+use naijascript::runtime::RuntimeErrorKind;
+
+mod common;
+use crate::common::with_stress_pipeline;
+
+fn runtime_errors(src: &str) -> Vec<String> {
+    with_stress_pipeline(src, |_, (root, parse_errors), resolver, runtime| {
+        assert!(parse_errors.diagnostics.is_empty(), "{:?}", parse_errors.diagnostics);
+        resolver.resolve(root);
+        assert!(!resolver.errors.has_errors(), "{:?}", resolver.errors.diagnostics);
+        runtime.run_with_analysis(root, &resolver.facts, resolver.optimization_plan.as_ref());
+        runtime.errors.diagnostics.iter().map(|e| e.message.to_string()).collect()
+    })
+}
+
+fn grow(levels: usize, step: &str) -> String {
+    format!(
+        "make a get [1]\nmake i get 0\njasi (i small pass {levels}) start\n{step}\ni get i add 1\nend\nshout(a)\n"
+    )
+}
+
+#[test]
+fn moderately_nested_arrays_work() {
+    for step in ["a get [a]", "make b get [0]\nb.push(a)\na get b", "make b get [[0]]\nb[0][0] get a\na get b"] {
+        assert!(runtime_errors(&grow(100, step)).is_empty());
+    }
+}
+
+#[test]
+fn unbounded_array_nesting_is_a_runtime_error() {
+    let expected = [RuntimeErrorKind::ArrayTooDeep.as_str().to_string()];
+    for step in ["a get [a]", "make b get [0]\nb.push(a)\na get b", "make b get [[0]]\nb[0][0] get a\na get b"] {
+        assert_eq!(runtime_errors(&grow(100_000, step)), expected);
+    }
+}
